@@ -9,8 +9,10 @@ if isinstance(stable, str):
 stable = set(stable)
 out = tempfile.mktemp(suffix='.xml', dir='/tmp')
 args = sys.argv[1:]
+serial = '--serial' in args
+args = [a for a in args if a != '--serial']
 cmd = ['/venv/bin/python', '-m', 'pytest', '-q', '-p', 'no:cacheprovider', '--timeout=900',
-       '--continue-on-collection-errors', '--junitxml=' + out, '-n', '8'] + args
+       '--continue-on-collection-errors', '--junitxml=' + out] + ([] if serial else ['-n', '8']) + args
 p = subprocess.run(cmd, cwd='/repo', stdout=subprocess.PIPE, stderr=subprocess.STDOUT, universal_newlines=True)
 if 'unrecognized arguments: -n' in p.stdout or 'no such option' in p.stdout:
     cmd = [c for c in cmd if c not in ('-n', '8')]
